@@ -147,18 +147,70 @@ func cmdParseTrace(args []string) error {
 		normSpec(&s)
 		text, toks := printSpec(s)
 		id := fmt.Sprintf("%s-%d", s.Fam, n)
-		for _, mode := range []string{"parse", "eval"} {
-			base := runParseTrace(id, text, mode, -1)
-			base.Toks, base.Decls = toks, s.Decls
-			if err := w.Write(base); err != nil {
-				return err
+		type variant struct {
+			id, text string
+			toks     []PTok
+			decls    []EDecl
+		}
+		vs := []variant{{id, text, toks, s.Decls}}
+		if mine%2 == 0 {
+			// every second specification is written without the optional semicolons: a token declaration or a directive is then
+			// followed directly by the next declaration or by the end of the text
+			tk := specToks("t", s.Decls, false)
+			vs[0] = variant{id + "/nosemi", layout(tk, "", " ", "\n"), tk, s.Decls}
+		}
+		// ... and every directive gets its turn as the LAST declaration, with and without its semicolon (the text then ends
+		// right after a handle)
+		for i, d := range s.Decls {
+			if d.K == "dir" && i < len(s.Decls)-1 {
+				ds := append(append(append([]EDecl{}, s.Decls[:i]...), s.Decls[i+1:]...), d)
+				for _, semi := range []bool{false, true} {
+					tk := specToks("t", ds, semi)
+					vs = append(vs, variant{fmt.Sprintf("%s/dirlast%d-%v", id, i, semi), layout(tk, "", " ", "\n"), tk, ds})
+				}
 			}
-			if *inject < 0 || mine <= *inject {
-				for k := 0; k < len(base.Events); k++ {
-					tr := runParseTrace(fmt.Sprintf("%s/%s@%d", id, mode, k), text, mode, k)
-					tr.Toks, tr.Decls = toks, s.Decls
-					if err := w.Write(tr); err != nil {
-						return err
+		}
+		if mine%150 == 1 {
+			// the text starts behind so many blanks that a token begins just before, at and after offset 4095 (the end of the
+			// first half of a reader of the default size), or - for a text of more than 8 KiB - around the middle of the text
+			plain := specToks("t", s.Decls, true)
+			layout(plain, "", " ", "\n")
+			step := max(1, len(plain)/8)
+			for j := 0; j < len(plain); j += step {
+				for _, at := range []int{4094, 4095, 4096} {
+					if plain[j].Off > at {
+						continue
+					}
+					tk := specToks("t", s.Decls, true)
+					txt := layout(tk, strings.Repeat(" ", at-plain[j].Off-1)+"\n", " ", "\n")
+					vs = append(vs, variant{fmt.Sprintf("%s/pad%d@%d", id, at, j), txt, tk, s.Decls})
+				}
+				for _, d := range []int{-1, 0, 1} {
+					// lead 5000, trailing blanks so that (len+3)/2 - 1 + d is the offset of token j
+					tk := specToks("t", s.Decls, true)
+					txt := layout(tk, strings.Repeat(" ", 4999)+"\n", " ", "\n")
+					trail := 2*(5000+plain[j].Off-d+1) - 3 - len(txt)
+					if trail < 0 {
+						continue
+					}
+					vs = append(vs, variant{fmt.Sprintf("%s/mid%d@%d", id, d, j), txt + strings.Repeat(" ", trail), tk, s.Decls})
+				}
+			}
+		}
+		for _, v := range vs {
+			for _, mode := range []string{"parse", "eval"} {
+				base := runParseTrace(v.id, v.text, mode, -1)
+				base.Toks, base.Decls = v.toks, v.decls
+				if err := w.Write(base); err != nil {
+					return err
+				}
+				if *inject < 0 || mine <= *inject {
+					for k := 0; k < len(base.Events); k++ {
+						tr := runParseTrace(fmt.Sprintf("%s/%s@%d", v.id, mode, k), v.text, mode, k)
+						tr.Toks, tr.Decls = v.toks, v.decls
+						if err := w.Write(tr); err != nil {
+							return err
+						}
 					}
 				}
 			}
